@@ -9,7 +9,7 @@ MANIFEST = {
     "note": "Trusted: Lean kernel; hand-written model (differential tie + TLV kernels); text fields enter the model as UTF-8/UTF-16 bytes (codecs are CPython's); strict-DER reading of X.690 in harness/der.py",
     "technique": "Lean 4 proof (composition of TLV round trips; spec-tree equality) + kernel extraction + correspondence + independent strict DER parser",
 }
-THEOREMS_TODO = ["DpapiNg.C06.blob_layout", "DpapiNg.C06.unpack_pack", "DpapiNg.C06.protDesc_roundtrip", "DpapiNg.C06.encode_minimal"]
+THEOREMS = ["DpapiNg.C06.blob_layout", "DpapiNg.C06.unpack_pack", "DpapiNg.C06.pack_unpack_pack", "DpapiNg.C06.protDesc_roundtrip", "DpapiNg.C06.encode_minimal", "DpapiNg.C06.protect_layout"]
 RULE = ("blob values: key identifiers with boundary/random u32 fields and Unicode names, key_info sizes {0,1,32,33,100,524,800}, enc_content lengths "
         "{0,1,2,126,127,128,129,255,256,257,65535,65536,65537 (+2^24 thorough)}, enc_cek 0..72, parameters present/absent, both layouts; malformed: truncations / bit flips of emitted blobs; "
         "distinct by op line; non-trivial = a successful pack or unpack")
@@ -190,4 +190,3 @@ def replay(ctx, payload):
     c2 = type(ctx)(ctx.prop, "quick", ctx.seed)
     run(c2)
     return not c2.violations
-THEOREMS = []
